@@ -130,6 +130,10 @@ PROGRAMS = {
     "ret|ret|route": [[("retrieve",)], [("retrieve",)], [("route", "c")]],
     "ret|batch": [[("retrieve",), ("retrieve",)], [("batch", ("c", "d"))]],
     "ret|count|route": [[("retrieve",)], [("count",)], [("route", "c")]],
+    # two counts by one broker object around another object's route / retrieve (a reported length must not be older
+    # than the last completed operation)
+    "count,count|route": [[("count",), ("count",)], [("route", "c")]],
+    "count,count|ret": [[("count",), ("count",)], [("retrieve",)]],
 }
 QUEUES = {"[a]": ["a"], "[a,b]": ["a", "b"], "[a,a]": ["a", "a"], "[]": []}
 
@@ -164,6 +168,7 @@ class Scn:
 
             def f() -> None:
                 for op in prog[j]:
+                    sched.point("op", op[0])  # the others may run between two calls even if a call touches nothing shared
                     log.append(("call", j, op))
                     r = sysj.apply(op)
                     log.append(("ret", j, op, r))
